@@ -42,12 +42,30 @@ def be_value(E, st, zs):
     st.fact(z3.Implies(z3.Length(zs) == 0, t == 0))
     for k in (1, 2, 4, 8, 12, 16, 20, 24, 28, 32, 48, 56, 57, 64, 66):
         st.fact(z3.Implies(z3.Length(zs) == k, t < 256 ** k))      # the value of k bytes is below 256**k
+    if E.options.get('be_unfold'):
+        # opt-in ground instances of the positional-notation definition of be():
+        #   snoc (the recursive definition):  be(s) == be(s[:-1]) * 256 + s[-1]          for s != b''
+        #   cons (lemma, by induction):       be(bytes([b]) + r) == b * 256**len(r) + be(r)
+        ln = z3.Length(zs)
+        if z3.is_app(zs) and zs.decl().kind() == z3.Z3_OP_SEQ_EXTRACT:
+            prefix = z3.SubSeq(zs.arg(0), zs.arg(1), z3.simplify(zs.arg(2) - 1))
+        else:
+            prefix = z3.SubSeq(zs, 0, ln - 1)
+        st.fact(z3.Implies(ln >= 1, t == BE(prefix) * 256 + z3.BV2Int(zs[ln - 1])))
+        st.fact(BE(prefix) >= 0)
+        if z3.is_app(zs) and zs.decl().kind() == z3.Z3_OP_SEQ_CONCAT and zs.num_args() >= 2:
+            first = zs.arg(0)
+            if z3.is_app(first) and first.decl().kind() == z3.Z3_OP_SEQ_UNIT:
+                rest = zs.arg(1) if zs.num_args() == 2 else z3.Concat(*[zs.arg(i) for i in range(1, zs.num_args())])
+                st.fact(t == z3.BV2Int(first.arg(0)) * ops.pow2(E, st, 8 * z3.Length(rest)) + BE(rest))
+                st.fact(BE(rest) >= 0)
     if E.options.get('int_lemmas') is not None:
         # opt-in ground facts of base-256 positional notation: range by length, lower bound by a non-zero leading
         # digit, and injectivity on strings of one length (i2osp is the left inverse of be)
         ln = z3.Length(zs)
         st.fact(t < ops.pow2(E, st, 8 * ln))
         st.fact(z3.Implies(z3.And(ln >= 1, zs[0] != 0), t >= ops.pow2(E, st, 8 * (ln - 1))))
+        st.fact(z3.Implies(z3.And(ln >= 1, zs[0] == 0), t < ops.pow2(E, st, 8 * (ln - 1))))     # a zero leading digit
         st.fact(I2OSP(t, ln) == zs)
     return t
 
@@ -233,6 +251,10 @@ def b_hasattr(E, st, args, kw):
             return val(st, False)
         py = {'list': list, 'dict': dict, 'bytearray': bytearray}[h.kind]
         return val(st, hasattr(py, name))
+    from .interp import ModuleV
+    if isinstance(v, ModuleV) and v.info is not None:
+        # a module of the tree under verification: its attributes are its top-level definitions
+        return val(st, name in v.info.defs)
     rep = _py_representative(v)
     if rep is not _MISSING:
         return val(st, hasattr(rep, name))
@@ -353,6 +375,9 @@ def _bytes_from_iter(E, st, items):
             return outs
         cur = ok
         units.append(z3.Unit(z3.Int2BV(zx, 8)))
+        if not isinstance(x, int):
+            # ground instance of "int -> byte -> int is the identity on 0..255" (z3 is slow to find it by bit-blasting)
+            cur.fact(z3.Implies(z3.And(zx >= 0, zx <= 255), z3.BV2Int(z3.Int2BV(zx, 8)) == zx))
     if all(isinstance(x, int) for x in items):
         outs.append(('val', cur, bytes(items)))
     else:
